@@ -2,6 +2,7 @@
 import json, os
 from .lib.match import *
 from .lib.dlist import evaluate, fold, value_leaf
+from .lib import dlist as _dlist
 from .lib.facts import VERIF, AnalysisBroken
 
 SELECT = r'^bluetoe::(pairing_no_output|pairing_numeric_output)::|^bluetoe::details::(io_capabilities_matrix|security_manager_base|security_manager_impl)::'
@@ -17,6 +18,7 @@ META = {
 
 
 def run(chk, facts, tier):
+    _dlist.FACTS = facts      # small pure helpers are folded through
     chk.rule('io-capability-map', 'get_io_capabilities(output class, input tag) equals Core Vol 3 Part H Table 2.5', floor=6)
     chk.rule('legacy-method-table', 'select_legacy_pairing_algorithm equals Table 2.8 (legacy column) for all local IO configurations x remote IO capabilities', floor=30)
     chk.rule('lesc-method-table', 'select_lesc_pairing_algorithm equals Table 2.8 (LE Secure Connections column) for all local IO configurations x remote IO capabilities', floor=30)
